@@ -63,12 +63,21 @@ nf_case = st.fixed_dictionaries({
     "cli": st.sampled_from([False, False, False, True]),
 })
 
+def _big(c):
+    """with covariance weighting, one case in six is a bright source on a broad beam: an island of 1000-3000 pixels (the
+    size at which an implementation might stop building the pixel covariance)"""
+    if c["docov"] and c["seed"] % 6 == 0:
+        c = dict(c, hdr=dict(c["hdr"], bmin=8.0, bratio=max(c["hdr"]["bratio"], 1.8), rows=160, cols=160),
+                 src=dict(c["src"], int_a=max(c["src"]["int_a"], 1.2), snr=max(c["src"]["snr"], 300.0), snap="none"))
+    return c
+
+
 noisy_case = st.fixed_dictionaries({
     "rep": skyimg.rep_strategy,      # how the image is stored (CD matrix, degenerate axes, BSCALE/BZERO)
     "hdr": header_st, "src": source_st,
     "docov": st.sampled_from([True, True, False]), "internal": st.sampled_from([False, False, True]),
     "cores": st.sampled_from([1, 2, 4]), "seed": st.integers(0, 2 ** 31 - 1),
-})
+}).map(_big)
 
 
 def build(c, white_clause=False):
